@@ -1,7 +1,7 @@
 /-
   Props/C19.lean — property theorems for C19 (ZooKeeper server set reports exactly the
   membership changes that occurred).  Model: Model/ServerSet.lean; helper lemmas:
-  Proofs/ServerSet{Lemmas,Steps,Runs,Alt}.lean.
+  Proofs/ServerSet{Lemmas,Steps,Runs,Alt,Keys}.lean.
 
   Quantification: `cfg` is any member filter and any choice of raising callbacks; `ops` is any
   list of tree operations (create/delete the watched path, create/delete children — any
@@ -13,8 +13,14 @@
   ZooKeeper) and that its label is a legal choice — in particular the watched path may be
   deleted and re-created at any time, also before the client has been told.
   `exec cfg St.init ops = (final state, all notifications in order)`.
+
+  Members by content: `cfg.keyOf n` is the Member znode `n` carries, up to `Member.__eq__` (which
+  ignores the znode name) — any assignment, so different znodes may carry equal Members (a server
+  that re-registers).  `keyNote cfg.keyOf` turns a notification into what a consumer sees that
+  identifies members that way (as LoadBalancerSink does).  `distinctAlong cfg Tree.init ops`:
+  after none of the operations do two member znodes carry equal Members *at the same time*.
 -/
-import ScalesModel.Proofs.ServerSetAlt
+import ScalesModel.Proofs.ServerSetKeys
 namespace Scales.ServerSet
 
 /-- At every point of every history the fold of the delivered joins/leaves is the worker's
@@ -124,21 +130,76 @@ theorem C19_inflight_read_ordered_before_removal (cfg : Cfg) (ops : List Op) (n 
     `spec` — the predicate the harness evaluates on the implementation's observations. -/
 theorem C19_model_satisfies_spec (cfg : Cfg) (ops : List Op) (h : comp.wf cfg ops = true) :
     comp.spec cfg (comp.modelTrace cfg ops) = .ok :=
-  spec_trace cfg ops St.init 0 (Inv_init cfg) h
+  spec_trace cfg ops St.init [] true 0 (Inv_init cfg) h
+    (fun _ => ⟨KInv_init _, rfl, rfl⟩)
+
+/-- **Members by content** (`Member.__eq__`, not the znode name).  As long as no two member znodes
+    carry equal Members at the same time: a consumer that identifies members by content is never
+    told of a join of a Member it holds nor of a leave of a Member it does not hold; what it holds
+    is always the content of `_members`; and whenever nothing is on its way it holds exactly the
+    Members of the znodes present — in particular a server whose znode went and which
+    re-registered under another znode is held, whether or not the client saw the two changes in
+    one children update. -/
+theorem C19_member_view_eq_tree_at_quiescence (cfg : Cfg) (ops : List Op) (hwf : wf cfg ops = true)
+    (hd : distinctAlong cfg Tree.init ops = true) :
+    altOk [] ((exec cfg St.init ops).2.map (keyNote cfg.keyOf)) = true ∧
+    viewOf [] ((exec cfg St.init ops).2.map (keyNote cfg.keyOf)) =
+      (exec cfg St.init ops).1.members.map cfg.keyOf ∧
+    ((exec cfg St.init ops).1.quiet = true →
+      ∀ m, m ∈ viewOf [] ((exec cfg St.init ops).2.map (keyNote cfg.keyOf)) ↔
+           m ∈ ((ops.foldl specTree Tree.init).present cfg.lim).map cfg.keyOf) := by
+  obtain ⟨_, ha, hv⟩ := exec_keys ops St.init (Inv_init cfg) hwf (KInv_init _) rfl hd
+  obtain ⟨hi, _, _, ht⟩ := exec_inv ops St.init (Inv_init cfg) hwf
+  refine ⟨ha, hv, ?_⟩
+  intro hq
+  have hv' : viewOf [] ((exec cfg St.init ops).2.map (keyNote cfg.keyOf)) =
+      (exec cfg St.init ops).1.members.map cfg.keyOf := hv
+  have ht' : (exec cfg St.init ops).1.tree = ops.foldl specTree Tree.init := ht
+  rw [hv', ← ht']
+  exact mem_map_iff (quiet_members hi hq)
+
+/-- One update — the worker holds `members`, takes the child list `listing` and has read `got` —
+    delivers its leaves before its joins; so if the nodes of `listing` carry pairwise different
+    Members, a Member that is both leaving (under an old znode) and joining (under a new one:
+    `b ∈ got`) is held by the Member-equality consumer afterwards, and no notification of the
+    update is a join of a Member held or a leave of a Member not held. -/
+theorem C19_restart_within_one_update (k : Nat → Nat) (members listing got : List Nat)
+    (hm : members.Nodup) (hg : got.Nodup) (hgm : ∀ n ∈ got, n ∉ members)
+    (hgl : ∀ n ∈ got, n ∈ listing) (hkm : (members.map k).Nodup) (hkl : (listing.map k).Nodup)
+    (b : Nat) (hb : b ∈ got) :
+    altOk (members.map k) ((finishJob members listing got).2.map (keyNote k)) = true ∧
+    k b ∈ viewOf (members.map k) ((finishJob members listing got).2.map (keyNote k)) := by
+  obtain ⟨_, h2, h3⟩ := finishJob_keys k members listing got hm hg hgm hgl hkm hkl
+  refine ⟨h2, ?_⟩
+  rw [h3]
+  exact List.mem_map_of_mem (by simp [finishJob, hb])
 
 /-! ### non-vacuity: the hypotheses are satisfiable on non-trivial histories
   (`demoOps`: three children, one filtered; a read misses; the path is torn down and re-created
   with an old name; on_join/on_leave of that name raise) -/
 
-example : wf ⟨3, [1], [1]⟩ demoOps = true := by decide
-example : (exec ⟨3, [1], [1]⟩ St.init demoOps).1.quiet = true := by decide
-example : (exec ⟨3, [1], [1]⟩ St.init demoOps).2 = [(true, 1), (false, 1), (true, 1)] := by decide
+example : wf ⟨3, [1], [1], []⟩ demoOps = true := by decide
+example : (exec ⟨3, [1], [1], []⟩ St.init demoOps).1.quiet = true := by decide
+example : (exec ⟨3, [1], [1], []⟩ St.init demoOps).2 = [(true, 1), (false, 1), (true, 1)] := by decide
 example : ((demoOps.take 16).foldl specTree Tree.init).parent = none := by decide
-example : (exec ⟨3, [1], [1]⟩ St.init (demoOps.take 16)).1.quiet = true := by decide
+example : (exec ⟨3, [1], [1], []⟩ St.init (demoOps.take 16)).1.quiet = true := by decide
 /- the path is re-created before the DataWatch was told of its deletion, the ChildrenWatch of the
    old incarnation ends on the vanished path: the new incarnation gets a watch of its own -/
-example : wf ⟨3, [], []⟩ recreateUnobservedOps = true := by decide
-example : (exec ⟨3, [], []⟩ St.init recreateUnobservedOps).1.quiet = true := by decide
-example : (exec ⟨3, [], []⟩ St.init recreateUnobservedOps).2 = [(true, 0), (false, 0), (true, 1)] := by decide
+example : wf ⟨3, [], [], []⟩ recreateUnobservedOps = true := by decide
+example : (exec ⟨3, [], [], []⟩ St.init recreateUnobservedOps).1.quiet = true := by decide
+example : (exec ⟨3, [], [], []⟩ St.init recreateUnobservedOps).2 = [(true, 0), (false, 0), (true, 1)] := by decide
+
+/- a server restarts (`restartOps`, znodes 0 and 1 carry equal Members): the client learns of the
+   removal of znode 0 and the creation of znode 1 in one children update, and is told
+   leave-then-join; the hypotheses of `C19_member_view_eq_tree_at_quiescence` hold, and the
+   other order (join-then-leave) is one the specification rejects -/
+example : wf ⟨2, [], [], [0, 0]⟩ restartOps = true := by decide
+example : distinctAlong ⟨2, [], [], [0, 0]⟩ Tree.init restartOps = true := by decide
+example : (exec ⟨2, [], [], [0, 0]⟩ St.init restartOps).1.quiet = true := by decide
+example : (exec ⟨2, [], [], [0, 0]⟩ St.init restartOps).2 = [(true, 0), (false, 0), (true, 1)] := by decide
+example : altOk [] ([(true, 0), (true, 1), (false, 0)].map (keyNote (Cfg.keyOf ⟨2, [], [], [0, 0]⟩))) = false := by
+  decide
+example : viewOf [] ([(true, 0), (false, 0), (true, 1)].map (keyNote (Cfg.keyOf ⟨2, [], [], [0, 0]⟩))) = [0] := by
+  decide
 
 end Scales.ServerSet
